@@ -39,6 +39,7 @@ def run(ctx, tier):
     r_idem = RuleResult('C18.idempotent', 'repeated construction leaves a non-empty roadmap unchanged')
     r_bfs = RuleResult('C18.bfs', 'FIFO queue, mark+parent at enqueue, goal test at dequeue, roots seeded with None')
     r_reuse = RuleResult('C18.reuse', 'replacing the problem writes only the problem definition')
+    r_q = RuleResult('C18.query', 'start connections and goal set are complete: whole-roadmap scans, a milestone is skipped only by its own test')
     rps = roadmap_planners(ctx)
     if len(rps) < 1:
         r_ms.violations.append(Violation('C18', 'C18.milestone', 'oxmpl', 'floor', 'no roadmap planner found (floor 1)'))
@@ -202,6 +203,11 @@ def run(ctx, tier):
             if b.name == 'solve' and b.impl_trait:
                 _bfs(ctx, p, b, cont, c, r_bfs)
 
+        # ---------------------------------------------------------------- query lists
+        for b in p['methods']:
+            if b.name == 'solve' and b.impl_trait:
+                _query(ctx, p, b, cont, c, r_q)
+
         # ---------------------------------------------------------------- reuse
         from .c02 import _stores_field, _pd_field
         pdf = _pd_field(p)
@@ -229,7 +235,94 @@ def run(ctx, tier):
             r_reuse.inst('%s writes only self.%s' % (b.path, pdf), ok=not other, site=b.loc(0))
             for o, f in enumerate(sorted(set(other))):
                 r_reuse.violations.append(Violation('C18', 'C18.reuse', b.path, f, 'replacing the problem also modifies self.%s' % f, loc=b.loc(0), ordinal=o))
-    return [r_ms, r_sym, r_rm, r_idem, r_bfs, r_reuse]
+    return [r_ms, r_sym, r_rm, r_idem, r_bfs, r_q, r_reuse]
+
+
+def _query(ctx, p, b, cont, c, r_q):
+    """the query-time lists (milestones the start connects to; milestones satisfying the goal) are complete: the scan runs
+    over the whole roadmap and a milestone is left out only by the failing edge of its own test (radius / motion check for
+    the start connections, goal predicate for the goal set).  A milestone that passes its test but is skipped for another
+    reason makes the query incomplete or the answer longer than the fewest-hop path."""
+    from .c05 import radius_guards
+    fn = ctx.fn(b)
+    sf = c['state_field']
+    mcalls = [m for m in P.motion_calls(ctx, p) if m['fn'] is fn]
+    gqs = [q for q in P.goal_queries(ctx, p) if q['fn'] is fn]
+    rgs = radius_guards(ctx, p, fn)
+    found = {'start': 0, 'goal': 0}
+    reach = fn.reachable(0)
+    for bi, t in b.calls():
+        if bi not in reach or t['func'].get('path') not in P.LIST_PUSH:
+            continue
+        pl = t['args'][0].get('move') or t['args'][0].get('copy')
+        if pl is None or not b.local_ty(pl['l']).startswith('&mut std::vec::Vec<usize>'):
+            continue
+        x = fn.arg_terms(t, 1, bi)
+        elem = P.norm_state(ctx, p, fn, P.node_state_term(cont, x, sf))
+        gm = [m for m in mcalls if P.guarded(fn, bi, m['true_edges']) and
+              (P.norm_state(ctx, p, fn, m['to']) == elem or P.norm_state(ctx, p, fn, m['from']) == elem)]
+        gg = [q for q in gqs if P.guarded(fn, bi, q['true_edges']) and P.norm_state(ctx, p, fn, q['state']) == elem]
+        if gm:
+            kind = 'start'
+            own = set()
+            for m in gm:
+                own |= set(m['true_edges'])
+            for g in rgs:
+                if P.guarded(fn, bi, g['true_edges']) and (P.norm_state(ctx, p, fn, g['to']) == elem or P.norm_state(ctx, p, fn, g['from']) == elem):
+                    own |= set(g['true_edges'])
+        elif gg:
+            kind = 'goal'
+            own = set()
+            for q in gg:
+                own |= set(q['true_edges'])
+        else:
+            continue
+        found[kind] += 1
+        probs = []
+        loops = [L for L in fn.loops() if bi in L['body']]
+        if not loops:
+            probs.append('the %s list is not filled by a scan of the roadmap' % kind)
+        else:
+            L = min(loops, key=lambda l: len(l['body']))
+            # the scan covers the whole roadmap
+            whole = False
+            src = P.iter_source(x)
+            if src is not None and len(src) == 1:
+                q0 = next(iter(src))
+                if q0[0] == 'agg' and q0[1] == 'std::ops::Range':
+                    d = dict(q0[3])
+                    lo, end = d.get('start'), d.get('end')
+                    if lo == T(('const', '0')) and end and all(e[0] == 'call' and e[1].endswith('::len') and e[2][0] == cont for e in end):
+                        whole = True
+            for n in x:
+                if n[0] == 'field' and n[2] == '0' and P.enumerate_base(n[1]) == cont:
+                    # no skip/take/filter between enumerate and next
+                    u = next(iter(n[1]))
+                    nx = next(iter(u[1]))
+                    it = nx[2][0]
+                    if len(it) == 1 and next(iter(it))[1] == 'std::iter::Iterator::enumerate':
+                        whole = True
+            if not whole:
+                probs.append('the scan that fills the %s list does not run over the whole roadmap (index %s)' % (kind, fmt_terms(x)[:60]))
+            # skipped only by the failing edge of its own tests
+            allowed = set()
+            for (sb, tgt) in own:
+                for s in fn.succs(sb):
+                    if s != tgt:
+                        allowed.add((sb, s))
+            outside = frozenset(y for y in range(fn.nb) if y not in L['body'])
+            r = fn.reachable(L['header'], removed=frozenset(allowed), stop=outside | frozenset([bi]))
+            if any(src_ in r and src_ != bi for (src_, _d) in L['back_edges']):
+                probs.append('a milestone that passes the %s can be left out of the %s list by an unrelated condition: '
+                             'the query can miss a solution or return a longer path than the fewest-hop one' % (
+                                 'radius and motion tests' if kind == 'start' else 'goal predicate', kind))
+        r_q.inst('%s: the %s list at %s is complete (whole roadmap, skipped only by its own test)' % (b.path, kind, b.loc(bi)),
+                 ok=not probs, site=b.loc(bi))
+        for o, pr in enumerate(probs):
+            r_q.violations.append(Violation('C18', 'C18.query', b.path, kind, pr, loc=b.loc(bi), ordinal=o))
+    for kind, n in found.items():
+        if n < 1:
+            r_q.violations.append(Violation('C18', 'C18.query', b.path, 'floor:' + kind, 'no %s list found in the roadmap query (unrecognised shape)' % kind, loc=b.loc(0)))
 
 
 def _bfs(ctx, p, b, cont, c, r_bfs):
